@@ -414,24 +414,64 @@ def run(rep):
     # ---- R18.3 rendering --------------------------------------------------------
     methodsem.render_spec(rep, mod, 'R18.3')
 
-    # ---- R18.4 ----------------------------------------------------------------
-    lps = [n for n in walk_local(f) if isinstance(n, ast.For)
-           and match('func.__dict__.items()', n.iter) is not None]
-    ok = len(lps) == 1
-    if ok:
-        lp = lps[0]
-        tg = [e.id for e in lp.target.elts] if isinstance(lp.target, ast.Tuple) else []
-        ok = len(tg) == 2 and bool(find_all(
-            lp, 'method.setTaggedValue(%s, %s)' % (tg[0], tg[1]), 'exec')) and \
-            not [n for n in walk_local(lp) if isinstance(
-                n, (ast.Break, ast.Return, ast.Continue))]
-    rep.check('R18.4', 'interface.fromFunction', ok,
-              'every item of func.__dict__ becomes a tagged value',
-              construct='tagged', node=f)
-    ok = bool(find_all(f, 'method.interface = interface', 'exec')) and \
-        bool(find_all(f, 'method = Method(name, func.__doc__)', 'exec')) and \
-        bool(find_all(f, 'name = name or func.__name__', 'exec'))
-    rep.check('R18.4', 'interface.fromFunction', ok,
-              'the Method carries name (default func.__name__), doc and interface',
+    # ---- R18.4 (over path summaries) -----------------------------------------------
+    from ..sympath import summaries as _S, normal as _N
+    from .sem import nt as _nt
+    SRC = 'func.__dict__.items()'
+    E = 'EACH(%s)' % SRC
+    cfg = cfg_of(f)
+    bad_t, bad_i = [], []
+    n_t = 0
+    for ps in _N(_S(f)):
+        obj = _nt(ps.ret)
+        tv = [e for e in ps.events if e.kind == 'call' and
+              isinstance(e.r.func, ast.Attribute) and e.r.func.attr == 'setTaggedValue']
+        it = ps.facts.get('ITER(%s)' % SRC)
+        if it is None:
+            bad_t.append('func.__dict__.items() is not walked')
+        elif it:
+            n_t += 1
+            args = [[_nt(a_) for a_ in e.r.args] for e in tv]
+            if len(tv) != 1 or _nt(tv[0].r.func.value) != obj or \
+                    args[0] not in (['%s[0]' % E, '%s[1]' % E], ['*%s' % E]):
+                bad_t.append('an item is recorded as %s' % [_nt(e.r)[-70:] for e in tv])
+            extra = [c for c, t, p in ps.order if E in c and not c.startswith('ITER(')]
+            if extra:
+                bad_t.append('items filtered by `%s`' % extra[0][:60])
+            k = [i for i, (c, t, p) in enumerate(ps.order) if c == 'ITER(%s)' % SRC][-1]
+            loop = ps.order_nodes[k][0].ast
+            if isinstance(loop, ast.For) and [x for x in walk_local(loop) if isinstance(
+                    x, (ast.Break, ast.Return))]:
+                bad_t.append('the walk over the function attributes ends early')
+        elif tv:
+            bad_t.append('a tagged value is set without a function attribute')
+        # identity
+        call = ps.ret
+        if not (isinstance(call, ast.Call) and dotted(call.func) == 'Method'
+                and len(call.args) == 2 and not call.keywords):
+            bad_i.append('built as `%s`' % obj[:60])
+            continue
+        nm, doc = _nt(call.args[0]), _nt(call.args[1])
+        tname = ps.facts.get('name')
+        if tname is None and ps.facts.get('name is None') is not None:
+            bad_i.append('default name chosen by `name is None` (an empty name must '
+                         'fall back to func.__name__ as well)')
+        okn = nm == 'name or func.__name__' or (nm == 'name' and tname is True) or \
+            (nm == 'func.__name__' and tname is False)
+        if not okn:
+            bad_i.append('named `%s`' % nm[:50])
+        if doc != 'func.__doc__':
+            bad_i.append('documented with `%s`' % doc[:50])
+        st = [_nt(e.val) for e in ps.stores() if _nt(e.r) == '%s.interface' % obj]
+        if st[-1:] != ['interface']:
+            bad_i.append('interface stored as %s' % st)
+    if not n_t:
+        bad_t.append('no path records a function attribute')
+    rep.check('R18.4', 'interface.fromFunction', not bad_t,
+              'every item of func.__dict__ becomes a tagged value' if not bad_t else
+              {'problems': sorted(set(bad_t))[:3]}, construct='tagged', node=f)
+    rep.check('R18.4', 'interface.fromFunction', not bad_i,
+              'the Method carries name (default func.__name__), doc and interface'
+              if not bad_i else {'problems': sorted(set(bad_i))[:3]},
               construct='identity', node=f)
     methodsem.from_method(rep, mod, 'R18.4')
